@@ -7,7 +7,7 @@ import CV.Model.Bits
 -/
 namespace CV.Bits.EG
 
-/-- widths admitted for the symbol type (`count_zeros` returns a `u32`) -/
+/-- widths allowed for the symbol type (`count_zeros` returns a `u32`) -/
 def ValidN (N : Nat) : Prop := 1 ≤ N ∧ N < 2^32
 
 instance (N : Nat) : Decidable (ValidN N) := by unfold ValidN; exact inferInstance
